@@ -43,8 +43,14 @@ class Generated:
         exec(compile(code, filename=f"{name}.py", mode="exec"), module.__dict__)  # noqa: S102
         self.module = module
         self._parse = module.parse
+        self._wrapper = module.Parser() if hasattr(module, "Parser") else None  # the drop-in class the module also offers
+        self._n = 0
 
     def parse(self, rule, text, *, start_pos=0):
+        # both public entry points of a generated module are exercised: module.parse() and module.Parser().parse(), alternately
+        self._n += 1
+        if self._wrapper is not None and self._n % 2 == 0:
+            return self._wrapper.parse(rule, text, start_pos=start_pos)
         return self._parse(rule, text, start_pos=start_pos)
 
 
